@@ -82,6 +82,9 @@ let run_case v line =
     let any_held_int = ref false in
     let pending_resp = Array.make k [] in   (* per session: outcomes (ok?) of the Interims still unanswered, oldest first *)
     let flight_valid = Array.make k false in  (* the unanswered Interim's session object is still the cached one *)
+    let put_hold = ref false in               (* checkpoint writes are held back before they reach the store *)
+    let pending_put = Array.make k None in    (* a response was processed for the cached session, its checkpoint write is held *)
+    let late_put = Array.make k None in       (* ... and the session was released before that write reached the store *)
     let detached = Array.make k false in      (* ... or it was released meanwhile: the response acts on the detached object *)
     let ghosted = Array.make k false in
     let detached_seen = Array.make k false in  (* printed letter G: a late response was delivered for a released session *)       (* excuse G: a late response re-created the checkpoint of a released session *)
@@ -143,6 +146,7 @@ let run_case v line =
           | "A" :: i :: rest -> ann (fun j x h -> GActive (j, x, h)) i rest
           | "R" :: i :: rest -> ann (fun j x h -> GRestored (j, x, h)) i rest
           | ["X"; i; sn] -> if uint i >= k then raise Bad;
+            (match pending_put.(uint i) with Some ok -> late_put.(uint i) <- Some ok; pending_put.(uint i) <- None | None -> ());
             if flight_valid.(uint i) then detached.(uint i) <- true;
             flight_valid.(uint i) <- false;
             GReleased (nat_of_int (uint i), parse_snap sn)
@@ -152,13 +156,28 @@ let run_case v line =
                    parse_snap sn)
           | ["B"] -> Array.fill flight_valid 0 k false; Array.fill detached 0 k false; GRestart
           | ["P"; p] -> GPrune (p = "1")
-          | ["H"; _] | ["U"] -> GPrune false       (* placeholder, handled below *)
+          | ["H"; _] | ["U"] | ["UW"] -> GPrune false       (* placeholder, handled below *)
           | _ -> raise Bad in
         match String.split_on_char ',' op with
         | ["H"; "S"] -> hold_start := true; hold_int := false; "[]"
         | ["H"; "I"] -> hold_start := false; hold_int := true; "[]"
         | ["H"; "SI"] -> hold_start := true; hold_int := true; "[]"
-        | ["H"; "-"] -> hold_start := false; hold_int := false; "[]"
+        | ["H"; "-"] -> hold_start := false; hold_int := false; put_hold := false; "[]"
+        | ["H"; "W"] -> hold_start := false; hold_int := false; put_hold := true; "[]"
+        | ["H"; "IW"] -> hold_start := false; hold_int := true; put_hold := true; "[]"
+        | ["UW"] ->
+          (* the held checkpoint writes reach the store: for a session released meanwhile that is a write after the
+             delete - the same step as a late response on the detached object *)
+          put_hold := false;
+          Array.iteri (fun j lp -> match lp with
+              | Some ok ->
+                detached_seen.(j) <- true;
+                ignore (step_one (GLate (nat_of_int j, ok)));
+                if not v.fix_ghost then ghosted.(j) <- true;
+                late_put.(j) <- None
+              | None -> ()) late_put;
+          Array.fill pending_put 0 k None;
+          "[]"
         | ["H"; _] -> raise Bad
         | ["U"] ->
           (* session by session: the delayed Starts arrive (oldest first), then the held responses are delivered:
@@ -173,6 +192,7 @@ let run_case v line =
               pending_resp.(j) <- [];
               let rt = List.map (fun ok ->
                   if ok && flight_valid.(j) then ignore (step_one (GAck (nat_of_int j)));
+                  if flight_valid.(j) && !put_hold then pending_put.(j) <- Some ok;
                   if detached.(j) then begin
                     detached_seen.(j) <- true;
                     ignore (step_one (GLate (nat_of_int j, ok)));
@@ -234,7 +254,7 @@ let run_case v line =
           (if pruned.(j) then "P" else "") (if delayed.(j) then "D" else "")
           (if detached_seen.(j) then "G" else "")
           (if unexcused then "UNEXCUSED" else "") (if bug then "MODELBUG" else "")) ss in
-    (String.concat " " groups ^ " ; " ^ (if !racy then "racy" else if Array.exists (fun l -> l <> []) pending_resp then "held" else String.concat " " dump) ^ " ; " ^ String.concat " " verdicts,
+    (String.concat " " groups ^ " ; " ^ (if !racy then "racy" else if Array.exists (fun l -> l <> []) pending_resp || !put_hold then "held" else String.concat " " dump) ^ " ; " ^ String.concat " " verdicts,
      wrapped_at)
   | _ -> raise Bad
 
